@@ -1,0 +1,58 @@
+//go:build verif
+// +build verif
+
+package media
+
+import (
+	"sync/atomic"
+	"time"
+)
+
+// VerifConsumption exposes, for the verification harness only, the state of the
+// consumption object passed to a vhook point.
+type VerifConsumption struct {
+	CID      CID
+	Consumer Consumer
+	QueueLen int
+	Closed   bool
+	Discard  bool
+	Stream   *Stream
+}
+
+// VerifInspect converts the object of a consumption-related hook point.
+func VerifInspect(x interface{}) (VerifConsumption, bool) {
+	c, ok := x.(*consumption)
+	if !ok || c == nil {
+		return VerifConsumption{}, false
+	}
+	return VerifConsumption{CID: c.cid, Consumer: c.consumer, QueueLen: c.recvQueue.Len(),
+		Closed: c.closed, Discard: c.discarding, Stream: c.stream}, true
+}
+
+// VerifCounts returns the raw consumer counters (rtp, flv) and the status of a stream.
+func VerifCounts(s *Stream) (rtp, flv int, status int32) {
+	return int(atomic.LoadInt32(&s.consumptions.count)), int(atomic.LoadInt32(&s.flvConsumptions.count)),
+		atomic.LoadInt32(&s.status)
+}
+
+// VerifMapped returns how many consumptions are actually in the two maps.
+func VerifMapped(s *Stream) (rtp, flv int) {
+	s.consumptions.Range(func(k, v interface{}) bool { rtp++; return true })
+	s.flvConsumptions.Range(func(k, v interface{}) bool { flv++; return true })
+	return
+}
+
+// VerifSetMaxQLen changes the backlog limit of a consumption (hook object).
+func VerifSetMaxQLen(x interface{}, n int) {
+	if c, ok := x.(*consumption); ok {
+		c.maxQLen = n
+	}
+}
+
+// VerifIdleCheck runs one evaluation of the zero-consumer close task for s
+// with period d; it reports whether the task considers itself finished.
+func VerifIdleCheck(s *Stream, closedStatus int32, d time.Duration) bool {
+	r := &runZeroConsumersClose{s: s, d: d, closedStats: closedStatus}
+	r.run()
+	return r.closed
+}
